@@ -150,7 +150,7 @@ func (fc *FnCtx) trCall(st *State, call *ast.CallExpr) []Val {
 	}
 	if fn.Pkg() != nil && isVerifFile(fc.pkg.Fset.Position(fn.Pos()).Filename) {
 		switch fn.Name() {
-		case "forall", "exists", "implies", "ite", "iteS", "byteStr":
+		case "forall", "exists", "implies", "ite", "iteS", "byteStr", "reMatch", "reGroup", "itoa":
 			return []Val{fc.trHelper(st, fn.Name(), call)}
 		}
 	}
@@ -238,7 +238,14 @@ func (fc *FnCtx) havocCall(st *State, call *ast.CallExpr, what string) []Val {
 	for _, a := range call.Args {
 		_ = fc.tr(st, a)
 	}
-	return fc.freshResults(st, call, "call")
+	rs := fc.freshResults(st, call, "call")
+	if fn, _ := fc.calleeOf(call); fn != nil && fn.Pkg() != nil && fc.w.isRepoPkg(fn.Pkg().Path()) {
+		st.env["ghost.called."+fn.Name()] = boolVal("true")
+		for i, rv := range rs {
+			st.env[fmt.Sprintf("ghost.ret.%s.%d", fn.Name(), i)] = rv
+		}
+	}
+	return rs
 }
 
 func (fc *FnCtx) freshResults(st *State, call *ast.CallExpr, hint string) []Val {
@@ -441,7 +448,7 @@ func (fc *FnCtx) trContractCall(st *State, call *ast.CallExpr) Val {
 		v := fc.tr(tmp, call.Args[0])
 		st.assume = tmp.assume
 		return v
-	case "implies", "ite", "iteS", "forall", "exists", "byteStr":
+	case "implies", "ite", "iteS", "forall", "exists", "byteStr", "reMatch", "reGroup", "itoa":
 		return fc.trHelper(st, name, call)
 	}
 	return fc.trContractCall2(st, call, name)
@@ -453,6 +460,37 @@ func (fc *FnCtx) trHelper(st *State, name string, call *ast.CallExpr) Val {
 	case "byteStr":
 		v := fc.tr(st, call.Args[0])
 		return Val{T: "(appendbyte emptystr " + v.T + ")", S: SStr}
+	case "itoa":
+		v := fc.tr(st, call.Args[0])
+		return Val{T: "(itoa " + v.T + ")", S: SStr}
+	case "reMatch", "reGroup":
+		// first argument names a package-level regex variable: resolved to its literal
+		lit := ""
+		switch a := call.Args[0].(type) {
+		case *ast.SelectorExpr:
+			lit = fc.w.regexByName[exprString(a)]
+		case *ast.Ident:
+			for nm, l := range fc.w.regexByName {
+				if strings.HasSuffix(nm, "."+a.Name) {
+					lit = l
+				}
+			}
+		}
+		if lit == "" {
+			fc.errorf("contract: %s: cannot resolve regex %s", name, exprString(call.Args[0]))
+			return boolVal("true")
+		}
+		id := fc.w.regexUF(lit)
+		s := fc.tr(st, call.Args[1])
+		if name == "reMatch" {
+			return boolVal("(rematch_" + id + " " + s.T + ")")
+		}
+		bl, _ := call.Args[2].(*ast.BasicLit)
+		if bl == nil {
+			fc.errorf("contract: reGroup needs a literal group index")
+			return Val{T: "emptystr", S: SStr}
+		}
+		return Val{T: "(regroup_" + id + "_" + bl.Value + " " + s.T + ")", S: SStr}
 	case "implies":
 		a := fc.tr(st, call.Args[0])
 		st.guard = append(st.guard, a.T)
@@ -533,6 +571,30 @@ func (fc *FnCtx) trContractCall2(st *State, call *ast.CallExpr, name string) Val
 		case "scanLines":
 			return fc.readKey(st, v.Rec+".lines", types.NewSlice(types.Typ[types.String]))
 		}
+	case "called":
+		id, _ := call.Args[0].(*ast.Ident)
+		if id == nil {
+			fc.errorf("contract: called(name)")
+			return boolVal("false")
+		}
+		if _, ok := st.env["ghost.called."+id.Name]; ok {
+			return boolVal("true")
+		}
+		return boolVal("false")
+	case "resultOf":
+		id, _ := call.Args[0].(*ast.Ident)
+		bl, _ := call.Args[1].(*ast.BasicLit)
+		if id == nil || bl == nil {
+			fc.errorf("contract: resultOf(name, i)")
+			return Val{S: SOpaque, T: "0"}
+		}
+		if v, ok := st.env["ghost.ret."+id.Name+"."+bl.Value]; ok {
+			return v
+		}
+		// not called on this path: an arbitrary value (clauses guard with called())
+		return Val{S: SNil, T: "0"}
+	case "lastRead":
+		return fc.readKey(st, "ghost.lastRead", types.Typ[types.String])
 	case "fsWrites":
 		return fc.fsWrites(st)
 	case "lastWritePath":
@@ -704,6 +766,12 @@ func (fc *FnCtx) callByContract(st *State, call *ast.CallExpr, fn *types.Func, r
 	for _, cl := range c.clauses("ensures") {
 		t := fc.tr(st, cl.Expr)
 		st.addAssume(t.T)
+	}
+	if !c.Extern {
+		st.env["ghost.called."+fn.Name()] = boolVal("true")
+		for i, rv := range results {
+			st.env[fmt.Sprintf("ghost.ret.%s.%d", fn.Name(), i)] = rv
+		}
 	}
 	if c.Opts["exits"] == "always" {
 		st.env["$outcome"] = Val{T: "exit", S: SOpaque}
